@@ -94,6 +94,8 @@ def invoke(c, r):
         return c.stats(*r.get("args", ()))
     if op == "raw_command":
         return c.raw_command(r["command"], *([r["end"]] if "end" in r else []))
+    if op in ("close", "disconnect_all"):
+        return getattr(c, op)()
     if op == "quit":
         return c.quit()
     if op == "shutdown":
